@@ -3,4 +3,5 @@ pub mod engsess;
 pub mod gen;
 pub mod props;
 pub mod refmodel;
+pub mod refsearch;
 pub mod run;
